@@ -317,8 +317,27 @@ func (tb *TB) Add(a, b *Term) *Term {
 			return b
 		}
 	}
-	if y, ok := b.intLit(); ok && y.Sign() == 0 {
-		return a
+	if y, ok := b.intLit(); ok {
+		if y.Sign() == 0 {
+			return a
+		}
+		// (x + c1) + c2 = x + (c1+c2)
+		if a.op == "+" && len(a.args) == 2 {
+			if c1, ok := a.args[1].intLit(); ok {
+				return tb.Add(a.args[0], tb.IntBig(new(big.Int).Add(c1, y)))
+			}
+		}
+		if a.op == "-" && len(a.args) == 2 {
+			if c1, ok := a.args[1].intLit(); ok {
+				return tb.Add(a.args[0], tb.IntBig(new(big.Int).Sub(y, c1)))
+			}
+		}
+	}
+	if x, ok := a.intLit(); ok {
+		if _, isLit := b.intLit(); !isLit {
+			return tb.Add(b, a) // literals to the right
+		}
+		_ = x
 	}
 	return tb.mk("+", SInt, a, b)
 }
@@ -328,11 +347,18 @@ func (tb *TB) Sub(a, b *Term) *Term {
 			return tb.IntBig(new(big.Int).Sub(x, y))
 		}
 	}
-	if y, ok := b.intLit(); ok && y.Sign() == 0 {
-		return a
+	if y, ok := b.intLit(); ok {
+		if y.Sign() == 0 {
+			return a
+		}
+		return tb.Add(a, tb.IntBig(new(big.Int).Neg(y))) // x - c = x + (-c)
 	}
 	if a == b {
 		return tb.Int(0)
+	}
+	// (x + c) - x = c
+	if a.op == "+" && len(a.args) == 2 && a.args[0] == b {
+		return a.args[1]
 	}
 	return tb.mk("-", SInt, a, b)
 }
